@@ -36,7 +36,9 @@ META = dict(
               "amount and by quote amount, limit, stop-limit, OCO with and without stop-limit price) and of the bitstamp "
               "exchange (market, limit, instant), both operations; every decimal argument = symbolic coefficient in "
               "[1, 1e16) x 10^e with e from -14 .. +4 chosen by the solver (covers magnitudes 1e-12 .. 1e12, trailing "
-              "zeros, positive exponents); decode: binance millisecond and bitstamp microsecond timestamp kernels over "
+              "zeros, positive exponents); the same entry points once more with the coefficient from 13 digit shapes "
+              "(1, 3, 10, 30, 100, 3000, 10500, 29400, 1e6, 123456789, 999999999999, 1e15, 5e15+1) so that real strings "
+              "reach the wire and are compared exactly; decode: binance millisecond and bitstamp microsecond timestamp kernels over "
               "2010..2100, over the reals with symbolic integer timestamps AND for binary64 by a per-binade integer "
               "encoding of the two roundings (fpkernel)",
         thorough="same (the space is covered symbolically; nothing to deepen) plus coefficient bound 1e28"),
@@ -53,6 +55,7 @@ META = dict(
 )
 
 EXPONENTS = list(range(-14, 5))
+SHAPES = [1, 3, 10, 30, 100, 3000, 10500, 29400, 1000000, 123456789, 999999999999, 10 ** 15, 5 * 10 ** 15 + 1]
 
 
 def plain_condition(tok):
@@ -78,6 +81,16 @@ def plain_condition(tok):
 def check_param(ctx, sent, name, original, who):
     ctx.cover("a decimal parameter was transmitted")
     val = sent.get(name)
+    if ctx.mode == "sym" and not isinstance(original, SymDec):
+        ok = isinstance(val, str) and not isinstance(val, SymStr) and PLAIN_RE.match(val) is not None
+        ctx.prove(ok, "C17 %s: decimals are transmitted in plain fixed-point notation" % who, info=(name, val))
+        try:
+            same = ok and Decimal(val) == original
+        except Exception:
+            same = False
+        ctx.prove(same, "C17 %s: the transmitted decimal has exactly the caller's value" % who,
+                  info=(name, val, str(original)))
+        return
     if ctx.mode == "sym":
         ok_type = isinstance(val, SymStr)
         ctx.prove(ok_type, "C17 %s: decimal parameter is transmitted as a decimal string (no float / int conversion)"
@@ -116,6 +129,12 @@ def sym_decimal(ctx, name):
         e = EXPONENTS[ctx.choice(name + "_exponent", len(EXPONENTS))]
     else:
         e = -2
+    if ctx.scratch.get("c17_shapes"):
+        # concrete coefficient of a solver-chosen digit shape: real strings flow through the real code, so that
+        # character-level manipulation of the rendering (which a symbolic token would hide) is compared exactly
+        is_subject = idx == st["subject"] or (idx == 0 and st["subject"] >= 4)
+        coef = SHAPES[ctx.choice(name + "_shape", len(SHAPES))] if is_subject else 12345
+        return Decimal(coef).scaleb(e)
     if ctx.mode == "sym":
         c = z3.Int(name + "_coefficient")
         ctx._reg(name + "_coefficient", "int", None, c)
@@ -132,8 +151,9 @@ def _binance(ctx):
     return e, sess
 
 
-def encode_binance(ctx, account="spot", entry="limit", op="buy"):
+def encode_binance(ctx, account="spot", entry="limit", op="buy", shapes=False):
     import basana.external.binance.client.base as bn_base
+    ctx.scratch["c17_shapes"] = shapes
     ctx.patch(bn_base, "time", types.SimpleNamespace(time=lambda: 1700000000.123), both_modes=True)
     e, sess = _binance(ctx)
     acc = {"spot": lambda: e.spot_account, "cross": lambda: e.cross_margin_account,
@@ -192,7 +212,7 @@ def encode_binance(ctx, account="spot", entry="limit", op="buy"):
     want_path = {"spot": "/api/v3/order", "cross": "/sapi/v1/margin/order", "isolated": "/sapi/v1/margin/order"}[account]
     if typ is None:
         want_path += "/oco"
-    ctx.prove([call["method"] == "POST", call["url"].endswith(want_path), sent.get("symbol") == "BTCUSDT",
+    ctx.prove([call["method"] == "POST", call["url"].split("?")[0].endswith(want_path), sent.get("symbol") == "BTCUSDT",
                sent.get("side") == ("BUY" if op == "buy" else "SELL")] + ([sent.get("type") == typ] if typ else []),
               "C17 %s: operation, pair and order type select the documented endpoint, side and symbol" % who,
               info=(call["method"], call["url"], sent.get("symbol"), sent.get("side"), sent.get("type")))
@@ -201,8 +221,9 @@ def encode_binance(ctx, account="spot", entry="limit", op="buy"):
     ctx.cover("timestamp kernel decided")
 
 
-def encode_bitstamp(ctx, entry="limit", op="buy"):
+def encode_bitstamp(ctx, entry="limit", op="buy", shapes=False):
     import basana.external.bitstamp.helpers as bt_helpers
+    ctx.scratch["c17_shapes"] = shapes
     ctx.patch(bt_helpers, "time", types.SimpleNamespace(time=lambda: 1700000000.123), both_modes=True)
     sess = StubSession()
     d = bs.realtime_dispatcher()
@@ -234,7 +255,7 @@ def encode_bitstamp(ctx, entry="limit", op="buy"):
     for name in absent:
         ctx.cover("an unset option was omitted")
         ctx.prove(name not in sent, "C17 %s: options left unset are omitted" % who, info=name)
-    ctx.prove([call["method"] == "POST", call["url"].endswith(path)],
+    ctx.prove([call["method"] == "POST", call["url"].split("?")[0].endswith(path)],
               "C17 %s: operation, pair and order type select the documented endpoint" % who, info=call["url"])
     ctx.cover("timestamp kernel decided")
 
@@ -380,10 +401,17 @@ def jobs(tier):
                 js.append(Job("encode binance %s %s %s" % (account, entry, op), "encode_binance",
                               dict(account=account, entry=entry, op=op), validate_every=40, sample_every=100,
                               max_paths=2000000, split=64 if entry in ("oco_stop_limit",) else 0))
+                if op == "buy":
+                    js.append(Job("encode (digit shapes) binance %s %s" % (account, entry), "encode_binance",
+                                  dict(account=account, entry=entry, op=op, shapes=True), validate_every=0,
+                                  sample_every=200, max_paths=2000000))
     for entry in ("market", "limit", "instant"):
         for op in ("buy", "sell"):
             js.append(Job("encode bitstamp %s %s" % (entry, op), "encode_bitstamp", dict(entry=entry, op=op),
                           validate_every=20, sample_every=50))
+            if op == "sell":
+                js.append(Job("encode (digit shapes) bitstamp %s" % entry, "encode_bitstamp",
+                              dict(entry=entry, op=op, shapes=True), validate_every=0, sample_every=200))
     for which in ("binance_ms", "bitstamp_trades", "bitstamp_orders", "bitstamp_order_book"):
         js.append(Job("timestamps over the reals: " + which, "timestamps_reals", dict(which=which), validate_every=1,
                       sample_every=1))
